@@ -59,6 +59,9 @@ def panic_sig(rec, where="evalsrv"):
 
 def crash_sig(e, where="evalsrv", family=None):
     d = e.detail
+    if "AddressSanitizer" in d or "LeakSanitizer" in d:
+        m = re.search(r"(AddressSanitizer|LeakSanitizer): ([a-z-]+)", d)
+        return {"kind": "sanitizer_report", "what": m.group(0) if m else "report"}
     if "overflowed its stack" in d:
         return {"kind": "native_stack_overflow", "where": where, "family": family}
     m = re.search(r"exit=(-?[0-9]+)", d)
@@ -91,10 +94,15 @@ def observe(agg, srv, lines, desc, family, timeout=30.0):
 # leg 1: byte-level inputs
 
 def bytes_shard(args):
-    seed, n, gc_share = args
+    seed, n, gc_share = args[:3]
+    asan = len(args) > 3 and args[3]
     rng = random.Random(seed)
     agg = Agg()
-    srv = Server()
+    if asan:
+        srv = Server(binary=common.ASAN_EVALSRV, mem_gib=None,
+                     env=dict(os.environ, ASAN_OPTIONS="detect_leaks=1:halt_on_error=1:abort_on_error=0:exitcode=66"))
+    else:
+        srv = Server()
     try:
         for i in range(n):
             family, data = genbytes.gen_input(rng)
@@ -139,7 +147,15 @@ def bytes_shard(args):
                 agg.sample({"leg": "bytes", "family": family, "input": data[:120].decode("latin-1"),
                             "outcome": o.describe()})
     finally:
-        srv.close()
+        if asan and srv.proc is not None and srv.proc.poll() is None:
+            rc, err = srv.quit()
+            agg.count("asan_servers_exited_cleanly" if rc == 0 else "asan_servers_exit_%s" % rc)
+            if rc not in (0, None) or "Sanitizer" in err:
+                m = re.search(r"(AddressSanitizer|LeakSanitizer): ([a-z-]+)", err)
+                agg.violation({"kind": "sanitizer_report", "what": m.group(0) if m else "exit %s" % rc},
+                              {"stderr": err[-1500:], "seed": seed}, None)
+        else:
+            srv.close()
     return agg
 
 
@@ -387,6 +403,12 @@ def run(tier, seed):
     shards = [(c, depths) for c in DEEP]
     for a in common.pmap(deep_shard, shards):
         total.merge(a)
+    if not quick:
+        # leg 5: the byte-level workload on an AddressSanitizer + LeakSanitizer build of the server
+        common.build_asan()
+        for a in common.pmap(bytes_shard, [(seed * 15485863 + i, 6000, 0.05, True) for i in range(16)]):
+            total.merge(a)
+        total.count("asan_leg_inputs", 16 * 6000)
     rule = ("byte-level inputs (random bytes, token soup, mutated ui-tests corpus) loaded/evaluated/manifested in "
             "evalsrv under catch_unwind (1/3 of failing inputs again through Session to see the rendered "
             "diagnostic); every std function x argument tuples from a boundary pool; a sample through the release "
